@@ -1,5 +1,7 @@
-// C08: limited extrapolations with tokens decide on the UNLIMITED widening: a token is spent although the limited
-// extrapolation (same limiting system) is precise.
+// OBSERVATION (precision remark, NOT a finding against C08): limited / bounded extrapolations pass their token pointer
+// to the PLAIN widening, exactly as the property and the documentation of the delay technique state ("a token is
+// consumed when plain widening would lose precision"); consequently a token can be spent although the extrapolation
+// with the supplied limiting system would itself have been precise.  Exit code 1 only signals that this was observed.
 #include <iostream>
 #include <gmpxx.h>
 #include "ppl-config.h"
